@@ -90,6 +90,9 @@ CLAIMED = {
  "C36": ("other", "who-may-write + control-dependence on the memory accounting, thread confinement on the VTA call graph, lockset for writeMu state, monotone-writer rule for ack prefixes",
          "Does NOT decide exactly-once delivery (a schedule/fault property). Decides necessary structure: incoming-message memory is increased only under acquired+requested <= limit and decreased only after an underflow guard and followed by waking waiters; the accounting and the goRead/goWrite-local state are touched only by functions reachable from their documented owner goroutine and from no other goroutine root or exported API (the code's own 'no synchronization needed' comment, checked on the call graph); state shared between goroutines is accessed only under writeMu (including through c.incoming.transport.… paths and the conditional lock hand-over of goWriteStep, which is verified as a summary); every write to the three acknowledged-prefix fields is ++ or max(self, …).",
          "clause only; the simulator file fuzz_transport.go is excluded (single-threaded harness)", "DESIGN.md §3 C36"),
+ "C37": ("other", "shape rules on the acknowledgement header builders and the range-list linking of AddAckRange",
+         "Does NOT decide that the acknowledgement set equals the union of recorded ranges (value-level set arithmetic). Decides the structural clauses: BuildAck writes ackPrefix-1 only when ackPrefix>0, takes from/to from the first node's own bounds and enumerates the ack set from one node's ackFrom to the same node's ackTo (capped), so no number outside a stored range is acknowledged; BuildNegativeAck requests exactly the gaps between the prefix and the ranges; AddAckRange links every new node to its successor and predecessor, merges by min/max of the node's own bounds, carries the lower bound when unlinking an absorbed node and lets the prefix absorb leading ranges.",
+         "clause only; exact-shape rules on three small functions (a rewrite of them needs re-triage)", "DESIGN.md §8.2"),
  "C38": ("other", "lockset over client/server connection state (methods + every holder of the type), call-table pairing rules, who-may-write of call identity",
          "Decides the data-race clause for the connection state (every access to the call table, write queues, in-flight counters, status flags with the connection mutex held; Locked helpers called only under the lock) and the structural clauses of 'own response': calls registered under their own atomic-counter id, responses dispatched by the id decoded from their header, finishCall looks up/deletes/delivers the same entry, every delete from the call table delivers or returns the entry on all paths, pending calls are re-queued only while the connection is not closed and Close reaches every connection, and call ids/result channels are written only before registration. Scheduling, network faults and the race detector's dynamic judgement are not decided.",
          "clause only; closures passed to goroutines are analysed as unlocked code only when they touch guarded fields (none do)", "DESIGN.md §3 C38"),
@@ -119,7 +122,6 @@ NOT_APPLICABLE = {
  "C29": "acceptance is the absence of every rejection on concrete schema pairs; a syntactic rule was considered and rejected as brittle",
  "C31": "cross-language execution agreement; no type-resolved C++ front end for the generated templates in this sandbox",
  "C32": "cross-language execution agreement; no PHP parser or interpreter in this sandbox",
- "C37": "set arithmetic on uint32 ranges (+1, min, max): truth is in values, not in the shape of the code",
 }
 
 NOT_BUILT = "check not built yet in this round (planned in DESIGN.md §3); not claimed until it is built and self-tested"
